@@ -208,6 +208,13 @@ pub fn generate(rng: &mut Rng, tier: Tier, emit: &mut dyn FnMut(String)) {
     gen_exhaustive(&calpha2, if quick { 6 } else { 7 }, "conn 1", emit);
     // all schedules that start with two submissions (so that answers can be out of order)
     gen_exhaustive(&calpha, if quick { 3 } else { 4 }, "conn 1 s;s", emit);
+    if !quick {
+        // end-to-end exhaustion: 32768 requests in flight, the next two get UnableToAllocStreamId, one answer
+        // frees one id, the next request gets exactly that id; then FIN
+        let mut ops = vec!["s"; 32770];
+        ops.extend(["r5", "s", "r32767", "x"]);
+        emit(format!("conn 1 {}", ops.join(";")));
+    }
     for _ in 0..(if quick { 6_000 } else { 120_000 }) {
         let len = match rng.below(4) {
             0 => rng.range(2, 10),
@@ -742,8 +749,20 @@ impl ConnSim {
             self.set_gate(false);
         }
         self.settle(ctx).await;
+        // tokio's cooperative budget lets one task poll complete at most 128 channel operations: yield between
+        // batches so that every ready future is really observed
         for k in 0..self.futures.len() {
             self.poll_req(k, ctx);
+            if k % 64 == 63 {
+                tokio::task::yield_now().await;
+            }
+        }
+        tokio::task::yield_now().await;
+        for k in 0..self.futures.len() {
+            self.poll_req(k, ctx);
+            if k % 64 == 63 {
+                tokio::task::yield_now().await;
+            }
         }
         self.poll_broken();
         // ORACLE (C10): the peer closed / sent an unsolicited frame ⇒ the connection is reported broken; and once
